@@ -1240,8 +1240,15 @@ func (s *Server) cleanupExpiredLeases() {
 	}
 
 	s.leasesMu.Lock()
+	removed := 0
 	for _, mac := range expired {
 		lease := s.leases[mac]
+		// The lock was dropped since the scan: the lease may have been renewed
+		// (a new Lease object with a later expiry), released or declined
+		if lease == nil || !now.After(lease.ExpiresAt) {
+			continue
+		}
+		removed++
 		delete(s.leases, mac)
 
 		// Remove from circuit-ID secondary index
@@ -1268,7 +1275,7 @@ func (s *Server) cleanupExpiredLeases() {
 	s.leasesMu.Unlock()
 
 	s.logger.Info("Cleaned up expired leases",
-		zap.Int("count", len(expired)),
+		zap.Int("count", removed),
 	)
 }
 
